@@ -12,7 +12,7 @@ from props import _irb
 FOCUS = {
     'add_': ['add', 'add_cross', 'add_pin_instanced', 'cross_policy_add'], 'remove_': ['remove', 'remove_from', 'top_wired', 'connect_outer'], 'create_': ['create_port', 'create_cable',
     'create_child', 'create_pin', 'create_pins', 'create_wire', 'create_wires', 'create_library', 'create_definition', 'create_child_dup'],
-    'connect_pin': ['connect'], 'disconnect_pin': ['disconnect', 'disconnect_from'], 'reference': ['reference', 'unreference', 'create_child'],
+    'connect_pin': ['connect'], 'disconnect_pin': ['disconnect', 'disconnect_from', 'connect_outer', 'connect', 'create_child', 'create_port', 'create_wire'], 'reference': ['reference', 'unreference', 'create_child'],
     'reference=': ['reference', 'repoint_compatible', 'connect_outer', 'create_port', 'create_pin', 'create_child', 'add'],
     'top_instance': ['top', 'set_top'], 'pins=': ['reorder', 'reorder_bad', 'wire_pins_proxy'], '=': ['reorder', 'reorder_bad', 'scalar', 'name'],
     '__setitem__': ['data'], '__delitem__': ['deldata'], 'pop': ['popdata'], 'name': ['name'], '__init__': ['new'],
